@@ -387,10 +387,18 @@ class Interp:
             for key, fn in self.f.fns.items():
                 if fn.impl is None and fn.name == n and not fn.test:
                     return [(st, {"v": "fn", "key": key})]
-            # static / const
-            for key, it in list(self.f.statics.items()) + list(self.f.consts.items()):
-                if key.split("::")[-1] == n:
-                    return self.ev(it["e"], st)
+            # static / const: the one of the module the code is written in, else one imported there by `use`, else the only
+            # one of that name
+            cands = [(key, it) for key, it in list(self.f.statics.items()) + list(self.f.consts.items()) if key.split("::")[-1] == n and "@" not in key]
+            if cands:
+                fn0 = st.env.get("__fn")
+                mod = tuple(getattr(fn0, "module", ()) or ())
+                here = [c_ for c_ in cands if tuple(c_[0].split("::")[:-1]) == mod]
+                if not here and len(cands) > 1:
+                    used = [u for u in self.f.uses.get(mod, []) if not u.get("glob") and (u.get("alias") or (u.get("path") or [None])[-1]) == n]
+                    here = [c_ for c_ in cands if any(tuple(c_[0].split("::")[-len(u["path"]) :]) == tuple(u["path"]) or c_[0].endswith("::".join(u["path"][-2:])) for u in used)]
+                pick = (here or cands)[0]
+                return self.ev(pick[1]["e"], st)
             return [(st, H("name", n))]
         full = "::".join(segs)
         if segs[-2] in BOOLLIKE and segs[-1] in BOOLLIKE[segs[-2]]:
@@ -1780,7 +1788,7 @@ class Interp:
         try:
             s1 = st.fork()
             saved_env, saved_ret = s1.env, s1.ret
-            s1.env = {"__layout": saved_env.get("__layout")}
+            s1.env = {"__layout": saved_env.get("__layout"), "__fn": fn}
             s1.ret = None
             names = [n for n, _ in fn.params]
             for (n, ty), v in zip(fn.params, argv):
